@@ -26,6 +26,7 @@ func checkC20(c *fw.Ctx) {
 	c20FailingCaveat(c)
 	c20EveryTimeCaveat(c)
 	c20NoKeylessCache(c)
+	c20NoCutsetForPrefix(c)
 	c20Issuer(c)
 	c20Clock(c)
 	c20Fresh(c)
@@ -903,7 +904,6 @@ func andAll(a, b fw.DNF) fw.DNF {
 	return out
 }
 
-
 // tableEntry: v is (a pointer to / a copy of) an element of a package-level or local list.
 func tableEntry(v ssa.Value, depth int) bool {
 	if depth > 8 {
@@ -940,4 +940,59 @@ func tableEntry(v ssa.Value, depth int) bool {
 		}
 	}
 	return false
+}
+
+// 2 (continued). What a caveat says after its prefix is obtained by removing the prefix - a slice
+// at len(prefix), strings.TrimPrefix, strings.CutPrefix. strings.TrimLeft / TrimRight / Trim take
+// a *set of characters*: handed the prefix text, they also eat the leading characters of the value
+// that happen to occur in the prefix ("user_id = " strips u, s, e, r, _, i, d, space, =), so a
+// token issued for "sid_alice" validates for "alice". Positive evidence that a prefix was meant:
+// the same constant is the second operand of strings.HasPrefix / CutPrefix / TrimPrefix, or of a
+// string concatenation on the issuing side, somewhere in the package.
+func c20NoCutsetForPrefix(c *fw.Ctx) {
+	rule := "2 caveat-mask"
+	construct := "the text after a caveat prefix is taken by removing the prefix, not by trimming a character set"
+	prefixes := map[string]bool{}
+	var trims []ssa.CallInstruction
+	var trimFns []*ssa.Function
+	for _, fn := range c.P.SrcFuncs() {
+		if fn.Pkg == nil || !strings.HasSuffix(fn.Pkg.Pkg.Path(), "/tokens") {
+			continue
+		}
+		for _, call := range fw.Calls(fn) {
+			n := fw.CalleeName(call)
+			args := call.Common().Args
+			switch n {
+			case "strings.HasPrefix", "strings.CutPrefix", "strings.TrimPrefix":
+				if k, ok := fw.ConstString(args[1]); ok && len(k) > 1 {
+					prefixes[k] = true
+				}
+			case "strings.TrimLeft", "strings.TrimRight", "strings.Trim":
+				trims = append(trims, call)
+				trimFns = append(trimFns, fn)
+			}
+		}
+		for _, b := range fn.Blocks {
+			for _, ins := range b.Instrs {
+				if bo, ok := ins.(*ssa.BinOp); ok && bo.Op == token.ADD {
+					if k, isK := fw.ConstString(bo.X); isK && len(k) > 1 {
+						prefixes[k] = true
+					}
+				}
+			}
+		}
+	}
+	bad := ""
+	for i, call := range trims {
+		k, ok := fw.ConstString(call.Common().Args[1])
+		if !ok || !prefixes[k] {
+			continue
+		}
+		bad = fmt.Sprintf("%s(_, %q) in %s (%s): %q is used as a prefix elsewhere in the package, but here every leading character of the value that occurs in it is removed as well", fw.CalleeName(call), k, fw.FuncName(trimFns[i]), c.P.Pos(call.Pos()), k)
+	}
+	if bad != "" {
+		c.Fail(rule, construct, c.P.Pos(trims[0].Pos()), bad+": a token issued for a user whose ID begins with such characters validates for the shortened ID")
+		return
+	}
+	c.Ok(rule, construct, "", fmt.Sprintf("%d prefix constant(s), %d character-set trim(s), none of a prefix", len(prefixes), len(trims)))
 }
